@@ -29,6 +29,19 @@ Theorem c19_source_facts :
   name_attrs = ["_name"; "_CustomizableThreadPoolExecutor__name"].
 Proof. vm_compute. repeat split; reflexivity. Qed.
 
+(* any callable may be bound, also one that carries attributes of its own - in particular a callable that is
+   itself bound (ex2.bind(ex1.bind(fn))): the outer callable still submits ITS function to ITS executor.
+   (G17, repaired in /repo: the private attributes used to be written before update_wrapper's copy.) *)
+Theorem c19_bound_callable_own_target : forall e fn fn_dict,
+  private_attrs_after_wrapper = true ->
+  call_attrs (construct private_attrs_after_wrapper e fn fn_dict) = Some (e, fn).
+Proof. intros e fn d ->. exact (construct_after_own_target e fn d). Qed.
+Theorem c19_nested_bind_clobbered_if_written_before_refuted : forall e fn e' fn',
+  call_attrs (construct false e fn (construct false e' fn' [])) = Some (e', fn').
+Proof. exact construct_before_clobbered. Qed.
+Theorem c19_init_order_fact : private_attrs_after_wrapper = true.
+Proof. reflexivity. Qed.
+
 Example c19_instance :
   elayers (the_exec (chain (bind {| ebase := "mine"; elayers := [] |} 1)
                            [{| lclass := "RetryExecutor"; lname := None |}; {| lclass := "ThrottleExecutor"; lname := None |}]))
@@ -38,3 +51,5 @@ Proof. reflexivity. Qed.
 Print Assumptions c19_bind_chain_equiv.
 Print Assumptions c19_name_inherited.
 Print Assumptions c19_source_facts.
+Print Assumptions c19_bound_callable_own_target.
+Print Assumptions c19_nested_bind_clobbered_if_written_before_refuted.
